@@ -707,6 +707,37 @@ func zzRunC17(r *sim.Run) {
 		return
 	}
 	r.Ops += len(m.tasks) * 3
+	// reach: which of the situations the property speaks about did this run get into
+	if w.net.Dials > len(w.nodes) {
+		r.Probe("reconnect")
+	}
+	if stalled != nil {
+		r.Probe("waiter-stalled-before-remove")
+	}
+	if len(w.lost) > 0 && !w.faults {
+		r.Probe("connection-lost-through-keepalive-timeout")
+	}
+	for _, n := range w.nodes {
+		if len(m.tasks) == 0 {
+			break
+		}
+		if n.via != nil && n.keeper != nil && n.keeper.count("qualities|"+hex.EncodeToString(m.tasks[0].challenge[:])) > 0 {
+			r.Probe("task-through-relay")
+		}
+		if n.keeper != nil && n.started && n.joinedAt > m.tasks[0].addedAt && n.joinedAt < m.tasks[0].removedAt &&
+			n.keeper.count("qualities|"+hex.EncodeToString(m.tasks[0].challenge[:])) > 0 {
+			r.Probe("late-subscriber-got-current-task")
+		}
+		if n.started && n.joinedAt == m.tasks[0].addedAt {
+			r.Probe("subscribe-coincides-with-broadcast")
+		}
+	}
+	for _, tk := range m.tasks {
+		if tk.kind != "qualities" && len(tk.got) > 0 {
+			r.Probe("targeted-round-trip")
+			break
+		}
+	}
 	zzCheckRouting(r, w, m, freshTask, stalled)
 	h := fnv.New64a()
 	fmt.Fprint(h, len(w.nodes), len(m.tasks), w.net.Dials)
@@ -967,6 +998,7 @@ func zzRunC16(r *sim.Run) {
 				// byzantine peer: raw frames on the stream
 				frame, fdesc, kind := zzHostileFrame(t, msg, desc, limit)
 				r.Event("peer writes %s (%d bytes)", fdesc, len(frame))
+				r.Count("frames:"+[...]string{"valid", "noise", "malformed", "oversize"}[kind], 1)
 				switch kind {
 				case zzFrameValid:
 					if !expectClose {
